@@ -1208,7 +1208,7 @@ struct TemplateCore {
                     ++index;
 
                     if (index < length) {
-                        const SizeT id = SizeT(content[index] - DigitUtils::DigitChar::Zero);
+                        const SizeT id = (SizeT(content[index]) - SizeT(DigitUtils::DigitChar::Zero));
                         ++index;
 
                         if ((index < length) && (content[index] == TagPatterns::InLineLastChar)) {
